@@ -980,6 +980,11 @@ def build(tier='quick', seed=0):
     any_inners += [
         ('Vec<T>', '<T: Clone + PartialEq>', ['Debug', 'Clone', 'PartialEq', 'AsRef', 'Deref', 'Into', 'IntoIterator', 'Borrow'], '|v| !v.is_empty()', '|mut v| { v.truncate(3); v }'),
     ]
+    any_inners += [
+        # inner types whose own equality is not reflexive
+        ('Vec<f64>', '', ['Debug', 'Clone', 'PartialEq', 'PartialOrd', 'AsRef', 'Deref', 'Into', 'IntoIterator'], '|v| v.len() < 9', None),
+        ('Option<f32>', '', ['Debug', 'Clone', 'Copy', 'PartialEq', 'PartialOrd', 'AsRef', 'Into'], None, None),
+    ]
     if thorough:
         any_inners += [
             ('Option<T>', '<T: Clone>', ['Debug', 'Clone', 'PartialEq', 'AsRef', 'Deref', 'Into'], '|o| o.is_some()', None),
